@@ -116,6 +116,13 @@ def _mem(seed, cart_id):
     for ri, (_n, lo, _hi) in enumerate(cartgen.REGIONS):
         b[lo] = cart_id + 1
         b[lo + 1] = 0x10 + cart_id * 8 + ri
+    if cart_id == 1:
+        # cart b is saved the way newer PICO-8 versions do: trailing empty rows are omitted from its .p8 file,
+        # so its gfx/gff/map/music have empty tails
+        b[0x0000 + 192:0x2000] = bytes(0x2000 - 192)
+        b[0x3000 + 128:0x3100] = bytes(128)
+        b[0x2000 + 256:0x3000] = bytes(0x1000 - 256)
+        b[0x3100 + 12:0x3200] = b'\x41\x42\x43\x44' * ((0x100 - 12) // 4)
     return bytes(b), modes
 
 
@@ -151,7 +158,7 @@ def make_pool(seed):
     pool['a.p8']['label'] = expand(b'alab' + seed, 8192)
     pool['a.p8']['data'] = reffmt.write_p8(pool['a.p8']['version'], codes['a.p8'], pool['a.p8']['mem'],
                                            label=pool['a.p8']['label'])
-    pool['b.p8']['data'] = reffmt.write_p8(pool['b.p8']['version'], codes['b.p8'], pool['b.p8']['mem'])
+    pool['b.p8']['data'] = reffmt.write_p8(pool['b.p8']['version'], codes['b.p8'], pool['b.p8']['mem'], elide=True)
     for name in ('c.p8.png', 'd.p8.png'):
         pool[name]['data'] = reffmt.write_p8png(_rows(name.encode(), seed), pool[name]['mem'], codes[name],
                                                 pool[name]['version'])
